@@ -39,8 +39,9 @@ LEVEL_TEXT = ("Lean 4 theorems over M_rtc for all label lists / flavours / polic
               "execution takes no further method step in any continuation, the cancelled execution releases its lock and the lock is only "
               "ever held by executing requests, serve() returns only for one of four causes (so cancelled calls, undecodable requests, "
               "unknown methods, over-size requests never stop it), at quiescence nothing is pending and every call without a cause of its "
-              "own has a value. The pinned code stops the server on an over-size reply (finding F6) and fails a client permanently after "
-              "an over-size request (F10): kernel-checked witnesses, reproduced from the real code on every run.")
+              "own has a value. The snapshot stopped the server on an over-size reply (defect F6, repaired in /repo f05ad37; the runs are now "
+              "accepted by the model's `fixed` variant and reverting the repair is reported) and the code fails a client permanently after "
+              "an over-size request (known finding F10): kernel-checked witnesses, F10 reproduced from the real code on every run.")
 LEVEL_NOTE = ("Trusted: Lean kernel, M_rtc, harness/driver. Eventual completion assumes scheduler fairness; the harness's quiescence "
               "detector checks it on the real runs.")
 TECHNIQUE = "Lean 4 invariant proofs over an LTS model + trace acceptor and execution-log predicates against the real crate"
